@@ -7,6 +7,8 @@ Definition lock_open_creat : bool := true.
 Definition lock_open_excl : bool := false.
 Definition lock_open_trunc : bool := true.
 Definition lock_create_mode : N := 128.
+(* access mode of that open: 0 = O_RDONLY, 1 = O_WRONLY, 2 = O_RDWR *)
+Definition lock_open_access : N := 1.
 (* first fcntl() on the lock file *)
 Definition lock_cmd_nonblocking : bool := true.
 Definition lock_type_exclusive : bool := true.
